@@ -7,6 +7,11 @@ first, each exactly once; inner activations before outer ones; nothing else runs
 deferred body is itself a block activation: it has its own registrations (a `defer` nested
 in it is run when *it* is left) and its own internal jumps.
 
+`loopC l cond body` (`l: while { cond; <decision> } { body }`): the condition is a block
+activation like any other (its deferred bodies run when it is left: by a jump, or at its end
+after the decision, its tail expression, has been drawn); `break l` / `continue l` in it leave /
+restart the loop exactly as they do in the body and run nothing of the enclosing activations.
+
 A registration is recorded as the action "run this body as a block activation" (`Reg`); an
 activation that is left runs its registered actions, newest first (`runRegs`). A deferred
 body cannot be left by a jump (HIR rejects `break`/`continue`/`return`/`.try` that leave a
@@ -45,6 +50,27 @@ def execS (fuel : Nat) : Stmt → List Reg → St → Sig × List Reg × St
         | (.normal, st') => (none, st')
         | (.brk l, st') => if l = label then (some .normal, st') else (some (.brk l), st')
         | (.cont l, st') => if l = label then (none, st') else (some (.cont l), st')) fuel st with
+    | (sig, st') => (sig, regs, st')
+  | .loopC label cond body, regs, st =>
+    match iter (fun st =>
+      -- the condition is a block activation of its own whose tail expression is the decision:
+      -- however it is left, what was deferred in it so far runs (newest first); when it runs to
+      -- its end the decision is drawn BEFORE those deferred bodies run
+      match execStmtsS fuel cond [] st with
+      | (.normal, cregs, st0) =>
+        match st0.decide with
+        | (false, st1) => (some .normal, runRegs cregs st1)
+        | (true, st1) =>
+          match execBlockS fuel body (runRegs cregs st1) with
+          | (.normal, st') => (none, st')
+          | (.brk l, st') => if l = label then (some .normal, st') else (some (.brk l), st')
+          | (.cont l, st') => if l = label then (none, st') else (some (.cont l), st')
+      -- `break label` in the condition leaves the loop, `continue label` starts the next
+      -- iteration (the condition again), other jumps travel on
+      | (.brk l, cregs, st0) =>
+        if l = label then (some .normal, runRegs cregs st0) else (some (.brk l), runRegs cregs st0)
+      | (.cont l, cregs, st0) =>
+        if l = label then (none, runRegs cregs st0) else (some (.cont l), runRegs cregs st0)) fuel st with
     | (sig, st') => (sig, regs, st')
   | .brk l, regs, st => (.brk l, regs, st)
   | .cont l, regs, st => (.cont l, regs, st)
